@@ -14,7 +14,11 @@ def make_param(kind):
     if kind == "plain":
         return param.Integer(0, bounds=(0, 5))
     if kind == "mut_inst":
-        return param.List(default=[], instantiate=True)
+        return param.List(default=[], instantiate=True, allow_refs=True)
+    if kind == "sel0":
+        return param.Selector(objects=[], check_on_set=False)
+    if kind == "sel1":
+        return param.Selector(objects=[1], check_on_set=False)
     if kind == "mut_shared":
         return param.List(default=[], instantiate=False)
     if kind == "const":
@@ -32,18 +36,47 @@ class System:
     def __init__(self, beh, opts):
         self.kinds = opts["kinds"]
         self.classes = {}
-        prev = param.Parameterized
-        for i, c in enumerate(opts["classes"]):
-            ns = {n: make_param(k) for n, k in self.kinds.items()} if i == 0 else {}
-            prev = type(c, (prev,), ns)
-            self.classes[c] = prev
-        self.cnames = list(opts["classes"])
+        bases = opts.get("bases") or {c: ([opts["classes"][i - 1]] if i else []) for i, c in enumerate(opts["classes"])}
+        for c in sorted(bases):        # names are in definition order
+            ns = {n: make_param(k) for n, k in self.kinds.items()} if not bases[c] else {}
+            self.classes[c] = type(c, tuple(self.classes[b] for b in bases[c]) or (param.Parameterized,), ns)
+        self.cnames = sorted(bases)
+        self.cbfail = []
+        self.watch = bool(opts.get("watch"))
+        if self.watch:
+            # C13 "watching sees the same values as getattr": class-level watchers look at the class from
+            # inside the callback (plain attribute access only: the namespace caches are left alone)
+            for c in self.cnames:
+                cls = self.classes[c]
+                for n in self.kinds:
+                    if self.kinds[n] in ("plain", "noperinst"):
+                        cls.param.watch(self.on_class_event, [n])
+
+        class Src(param.Parameterized):
+            v = param.Integer(0)
+        self.src = Src()
         self.insts = []
         self.ctx = {}
         self.kf = set()
         self.tolerate = set(opts.get("tolerate", ()))
 
+    def on_class_event(self, event):
+        owner = event.cls if event.obj is None else event.obj
+        seen = getattr(owner, event.name)
+        if seen != event.new:
+            self.cbfail.append("watcher of %s.%s received new=%r while getattr(%s, %r) is %r" % (
+                event.cls.__name__, event.name, event.new, "instance" if event.obj is not None else event.cls.__name__, event.name, seen))
+        if event.obj is None:
+            static = inspect.getattr_static(event.cls, event.name)
+            if static.default != event.new:
+                self.cbfail.append("watcher of %s.%s received new=%r while the governing Parameter's default is %r" % (
+                    event.cls.__name__, event.name, event.new, static.default))
+
     def val(self, v):
+        if v["t"] == "skipref":
+            def skip(v):
+                raise param.Skip
+            return param.bind(skip, self.src.param.v)
         if v["t"] == "int":
             return v["v"]
         if v["t"] == "newcell":
@@ -83,6 +116,12 @@ class System:
                     i.param.update(**{a["n"]: v})
             elif n == "instmeta":
                 self.insts[a["i"] - 1].param[a["n"]].precedence = a["b"]
+            elif n == "instobjs":
+                self.insts[a["i"] - 1].param[a["n"]].objects.append(a["tok"])
+            elif n == "classobjs":
+                self.classes[a["c"]].param[a["n"]].objects.append(a["tok"])
+            elif n == "classmeta":
+                self.classes[a["c"]].param[a["n"]].precedence = a["b"]
             elif n == "mutateinst":
                 getattr(self.insts[a["i"] - 1], a["n"]).append(1)
             elif n == "mutateclass":
@@ -121,9 +160,17 @@ class System:
         name = st["act"]["name"]
         if ret != st["res"]:
             return ("result", "%s: result %s, spec expects %s" % (name, ret, st["res"]))
+        if self.cbfail:
+            return ("watch_vs_getattr", "during %s: %s" % (name, self.cbfail[0]))
         exp = st["obs"]
         editing = exp["editopen"]
         ids = {}
+
+        def mask(p):
+            objs = getattr(p, "_objects", None)
+            if objs is None:
+                return 0
+            return sum({1: 1, 2: 2, 3: 4}.get(o, 64) for o in set(objs)) + (128 if len(set(objs)) != len(objs) else 0)
 
         def cell(x):
             if isinstance(x, list):
@@ -152,9 +199,9 @@ class System:
         elif name == "readns":
             ns_classes.add(act["c"])
             ns_insts.update(k for k, i in enumerate(self.insts) if type(i).__name__ == act["c"])
-        elif name in ("instparam", "instmeta", "instset", "mutateinst", "enteredit", "exitedit"):
+        elif name in ("instparam", "instmeta", "instset", "mutateinst", "enteredit", "exitedit", "instobjs"):
             ns_insts.add(act["i"] - 1)
-        elif name == "addparam":
+        elif name in ("addparam", "classobjs", "classmeta"):
             ns_classes.add(act["c"])
         for c in self.cnames:
             cls = self.classes[c]
@@ -173,6 +220,8 @@ class System:
                 # (which class's __dict__ holds the governing Parameter is an implementation detail: not compared)
                 if (static.precedence or 0) != e["bounds"]:
                     return ("class_meta", "after %s: %s.%s Parameter attribute is %r, spec expects %r" % (name, c, n, static.precedence, e["bounds"]))
+                if mask(static) != e["objs"]:
+                    return ("class_objs", "after %s: the objects of %s.%s are %r, spec expects the token set with mask %d" % (name, c, n, getattr(static, "_objects", None), e["objs"]))
                 if not editing and bool(static.constant) != e["constant"]:
                     return ("class_constant", "after %s: %s.%s constant flag is %r, spec expects %r" % (name, c, n, static.constant, e["constant"]))
                 if c not in ns_classes:
@@ -200,6 +249,9 @@ class System:
                 if cell(v) != ecell(e["val"]):
                     return ("inst_value", "after %s: instance %d (%s).%s is %r, spec expects %s" % (
                         name, k + 1, type(inst).__name__, n, v, ecell(e["val"])))
+                gov0 = inst._param__private.params.get(n) or inspect.getattr_static(type(inst), n)
+                if mask(gov0) != e["objs"]:
+                    return ("inst_objs", "after %s: the objects seen by instance %d for %s are %r, spec expects the token set with mask %d" % (name, k + 1, n, getattr(gov0, "_objects", None), e["objs"]))
                 if existing is None:
                     continue
                 pv = inst.param.values()[n]
